@@ -243,18 +243,18 @@ type planItem struct {
 }
 
 type event struct {
-	Ev         string      `json:"ev"`
-	N          int         `json:"n"`
-	Rounds     int         `json:"rounds"`
-	Seed       []int       `json:"seed"`
-	Hp         [][2][]int  `json:"hp"` // per round: <<pre-image, digest>> of the pivot hash
+	Ev         string       `json:"ev"`
+	N          int          `json:"n"`
+	Rounds     int          `json:"rounds"`
+	Seed       []int        `json:"seed"`
+	Hp         [][2][]int   `json:"hp"` // per round: <<pre-image, digest>> of the pivot hash
 	Hs         [][][2][]int `json:"hs"` // per round, per 256-position window: <<pre-image, digest>>
-	Input      []int       `json:"input"`
-	Shuffled   []int       `json:"shuffled"`
-	Unshuffled []int       `json:"unshuffled"`
-	Perm       []int       `json:"perm"`
-	Unperm     []int       `json:"unperm"`
-	Panic      string      `json:"panic,omitempty"`
+	Input      []int        `json:"input"`
+	Shuffled   []int        `json:"shuffled"`
+	Unshuffled []int        `json:"unshuffled"`
+	Perm       []int        `json:"perm"`
+	Unperm     []int        `json:"unperm"`
+	Panic      string       `json:"panic,omitempty"`
 }
 
 func record(planPath, outPath string) error {
